@@ -28,13 +28,14 @@ func init() {
 			"V = value trees: for each leaf of {k, global.g, global.t.x, global.t.u.x} every subset of the tree's value positions (user sections and every chart's values.yaml sections at every level, incl. decoy sections under the real name of an aliased chart), " +
 			"all sets of <=2 (thorough <=3) (leaf,position) atoms over 7 leaves, all pairs of positions x all non-empty subsets of 4 leaves, each with no/each dependency switched off; " +
 			"C = condition paths with several table elements (addons.X.enabled, X.addons.feat.enabled, addons.extra.X.enabled) on four trees: the boolean at the full path x the element missing / present as a table x a boolean at the path with the element left out in {absent,true,false,\"str\"} in the parent's values.yaml and in user values x tags (a path resolves only if every element exists); " +
+			"T = P>A>Y,B>X in both listing orders: A's own values.yaml ships tags.t1 in {absent,true,false,\"str\"} x tags.t2 in {absent,true,false} and optionally a section B.X.enabled, X below B carries {t1}|{t1,t2} (and optionally condition X.enabled), tags.t1 set / not set by P and the user: a sibling's own data never decides; " +
 			"R = one chart used 2 (thorough 3) times under aliases at the same level, itself having 2..3 conditional dependencies (one of them optionally aliased): every assignment of {on, off in user values, off in the parent's values.yaml} to every (use, grandchild) x every use on / switched off; " +
 			"N = non-interference differential per dependency (inner: values destined for it, outer: everything else); H = client-only dry-run install per combination of per-dependency off-switch kinds. " +
 			"distinct = canonical JSON of the whole case (tree, Chart.yaml switches, every values.yaml, user values); every case has >=1 dependency and is non-trivial in that its expected render differs by construction from case to case (values name their source position)",
 		Run:    run,
 		Replay: replay,
 		Assumptions: []string{
-			"tags are read from the top parent's values (its values.yaml or user values), as documented; `tags` tables inside subchart values.yaml files are not generated",
+			"tags are read from the top parent's values (its values.yaml or user values), as documented; a `tags` table in a subchart's own values.yaml is generated only where the statement is unambiguous: it must not influence dependencies of its SIBLINGS (family T); whether it may switch that subchart's own dependencies is left open and not generated",
 			"defaults of the keys a condition refers to are written in the parent chart's values.yaml (its section for the dependency, its own global table), never in the dependency's own values.yaml: the statement does not say whether a dependency's own default for `<name>.enabled` is part of the parent's effective values (Helm counts it except for aliased dependencies below the first level)",
 			"no type conflicts between sources (a key is a table everywhere or a scalar everywhere); no null values; value layering as such belongs to C04",
 			"an empty table and an absent key are identified when comparing .Values (Helm materialises `global: {}` and `<sub>: {}`)",
@@ -45,6 +46,7 @@ func init() {
 			"condition-beats-tags", "nonbool-condition-skipped", "second-condition-path-decides", "alias-rendered", "same-chart-twice-one-off", "nested-under-disabled-parent",
 			"global-ancestor-wins", "global-flows-two-levels", "decoy-section-not-seen", "disabled-keeps-parent-data", "live-schema-rejects", "disabled-schema-skipped",
 			"install-hooks-filtered", "install-crds-filtered", "differential-ran",
+			"sibling-own-tags-would-flip-grandchild/sibling-listed-before", "sibling-own-tags-would-flip-grandchild/sibling-listed-after",
 			"multi-element-condition-path-decides", "unresolved-condition-path-shadowed-by-opposite-boolean",
 			"repeated-chart-grandchild-off-under-first-use-only", "repeated-chart-nonlast-grandchild-off-under-both-uses"},
 	})
@@ -408,6 +410,31 @@ func run(c *core.Ctx) {
 			})
 		}
 		c.Bound("C_cases", fmt.Sprint(nC))
+	}
+
+	// T: tags (and a section named after the sibling) in a sibling subchart's own values.yaml
+	if only("T") {
+		nT := 0
+		enumT(func(s tSpec) {
+			nT++
+			if !c.NextMine() {
+				return
+			}
+			cs := buildT(s)
+			_, m := e.one("T", cs)
+			// vacuity: would X's switch come out differently if the sibling's own data were consulted?
+			xi := findInst(m.root, "P.B.X")
+			sib := findInst(m.root, "P.A").def.Defaults
+			polluted := layer(m.parentEff[xi], asMap(sib["B"]))
+			if alt, _ := refEnabled(xi.dep, polluted, layer(m.allTags, asMap(sib["tags"]))); alt != m.enabled[xi] {
+				if s.BFirst {
+					c.Floor("sibling-own-tags-would-flip-grandchild/sibling-listed-after")
+				} else {
+					c.Floor("sibling-own-tags-would-flip-grandchild/sibling-listed-before")
+				}
+			}
+		})
+		c.Bound("T_cases", fmt.Sprint(nT))
 	}
 
 	// R: the same chart several times at one level, with conditional grandchildren
